@@ -2738,7 +2738,7 @@ func (p *Posix) UploadPartCopy(ctx context.Context, upi *s3.UploadPartCopyInput)
 			checksums = s3response.Checksum{}
 		} else {
 			if hashRdr == nil {
-				err := p.storeChecksums(f.File(), objPath, "", checksums)
+				err := p.storeChecksums(f.File(), *upi.Bucket, partPath, checksums)
 				if err != nil {
 					return s3response.CopyPartResult{}, fmt.Errorf("store part checksum: %w", err)
 				}
@@ -2765,7 +2765,7 @@ func (p *Posix) UploadPartCopy(ctx context.Context, upi *s3.UploadPartCopyInput)
 			checksums.CRC64NVME = &sum
 		}
 
-		err := p.storeChecksums(f.File(), objPath, "", checksums)
+		err := p.storeChecksums(f.File(), *upi.Bucket, partPath, checksums)
 		if err != nil {
 			return s3response.CopyPartResult{}, fmt.Errorf("store part checksum: %w", err)
 		}
